@@ -35,7 +35,8 @@ Inductive herr :=
 | ESizeUpdate    (* hpack: dynamic table size update too large / not at the start of a block *)
 | EEncoding      (* hpack: invalid encoding (unreachable first-byte class) *)
 | ETruncated     (* hpack: Close with buffered data *)
-| EFrameSize     (* h2: frame too large / FRAME_SIZE_ERROR *)
+| EFrameSize     (* h2: FRAME_SIZE_ERROR *)
+| ETooLarge      (* h2: ErrFrameTooLarge *)
 | EProtocol      (* h2: connection error PROTOCOL_ERROR *)
 | EStream        (* h2: stream error *)
 | EFlow          (* h2: FLOW_CONTROL_ERROR *)
@@ -46,7 +47,7 @@ Definition herr_eqb (a b : herr) : bool :=
   match a, b with
   | EVarint, EVarint | EIndex, EIndex | EHuffman, EHuffman | EStrLen, EStrLen
   | ESizeUpdate, ESizeUpdate | EEncoding, EEncoding | ETruncated, ETruncated
-  | EFrameSize, EFrameSize | EProtocol, EProtocol | EStream, EStream | EFlow, EFlow
+  | EFrameSize, EFrameSize | ETooLarge, ETooLarge | EProtocol, EProtocol | EStream, EStream | EFlow, EFlow
   | ECompression, ECompression | EOther, EOther => true
   | _, _ => false
   end.
